@@ -218,6 +218,49 @@ def _dt_cases_for_transition(name, tr, rnd, out, heavy, n_ws=7, hang_budget=None
                 out.append({"stream": "dst-boundary" if is_touch else "dst-other", "fn": "dt", "args": [name, W, f, fnat, prov, u, ws, (ws + 6) % 7]})
 
 
+def _midnight_days(tr):
+    """day indexes whose local midnight, or whose last second, lies in the wall region of the transition"""
+    a, b = _region(tr)
+    days = set()
+    for k in range(a // 86400 - 1, b // 86400 + 2):
+        if a <= k * 86400 < b or a <= k * 86400 + 86399 < b:
+            days.add(k)
+    return sorted(days)
+
+
+def _week_inner_cases(name, tr, rnd, out, all_days):
+    """week-inner: the value is on an ORDINARY day 1..6 days before / after a day G whose midnight (or last second) is skipped or
+    repeated, unit week, EVERY week configuration: the 7 configurations put G before the week, on its first / last day, strictly
+    inside the backward (start_of) or forward (end_of) day-by-day walk, and on the far side of the value.  Only the walk's
+    INTERMEDIATE values meet the transition in the 'strictly inside' configurations, so the unit's boundaries are ordinary wall
+    times there and the whole property is demanded without any listed exception."""
+    tz = T.ref_zone(name)
+    a, b = _region(tr)
+    if b - a >= 86400:
+        return                      # whole calendar days skipped: the never-terminating walk, covered (with a budget) by dst-boundary
+    tods = [12 * 3600 * MEG, 0, US_DAY - 1, None, 3600 * MEG - 1, None]
+    for G in _midnight_days(tr):
+        ds = [d for d in range(-6, 7) if d != 0]
+        if not all_days:
+            ds = sorted(rnd.sample([d for d in ds if d < 0], 3) + rnd.sample([d for d in ds if d > 0], 4))
+        for i, d in enumerate(ds):
+            tod = tods[(i + G) % len(tods)]
+            W = (G + d) * US_DAY + (rnd.randrange(US_DAY) if tod is None else tod)
+            if not (10 * US_DAY < W < MAX_WALL - 10 * US_DAY) or kind_of(tz, W // MEG) != "unique":
+                continue
+            U = inst_of(tz, W, 0)
+            if T.ref_render(tz, U)[0] != W:
+                continue
+            fnat = T.ref_render(tz, U)[1]
+            for ws in range(7):
+                # provenance: a converted value (natural fold, 0 for a unique wall time) or a constructed / parsed one (fold 1)
+                if (ws + i) % 2:
+                    f, prov = fnat, ("conv" if rnd.randrange(3) else "inst")
+                else:
+                    f, prov = 1, ("ctor" if rnd.randrange(3) else "parse")
+                out.append({"stream": "week-inner", "fn": "dt", "args": [name, W, f, fnat, prov, 4, ws, (ws + 6) % 7]})
+
+
 def _select_transitions(name, rnd, n_other):
     tab = zones.tab(name)
     trs = [t for t in tab.gaps_and_overlaps(rule_years=(2040, 9990)) if zones.MIN_T + 12 * 86400 < t[0] < zones.MAX_T - 12 * 86400]
@@ -273,6 +316,27 @@ def cases(tier, seed):
             _dt_cases_for_transition(name, t, rnd, out, heavy=True, n_ws=7 if thorough else 2, hang_budget=hang_budget)
         for t in other:
             _dt_cases_for_transition(name, t, rnd, out, heavy=False, n_ws=7 if thorough else 1, hang_budget=hang_budget)
+    # ---- week-inner: ordinary days around a day with a skipped / repeated midnight x all 7 week configurations
+    # (own generator state: the other streams of a given seed do not depend on this one)
+    rnd2 = random.Random(seed * 7919 + 12)
+    mz = list(_midnight_zones())
+    rnd2.shuffle(mz)
+    n_inner = 0
+    for name in mz:
+        mid, _o = _select_transitions(name, rnd2, 0)
+        has_midnight = lambda t: any(_region(t)[0] <= k * 86400 < _region(t)[1] for k in _midnight_days(t))
+        gaps = [t for t in mid if t[2] > t[1] and _region(t)[1] - _region(t)[0] < 86400 and has_midnight(t)]
+        ovl = [t for t in mid if t[2] < t[1] and _midnight_days(t)]
+        if not gaps:
+            continue
+        picks = rnd2.sample(gaps, min(len(gaps), 3 if thorough else 1))
+        if ovl:
+            picks += rnd2.sample(ovl, min(len(ovl), 2 if thorough else 1))
+        for t in picks:
+            _week_inner_cases(name, t, rnd2, out, all_days=thorough)
+        n_inner += 1
+        if not thorough and n_inner >= 8:
+            break
     # ---- fixed offsets, UTC, naive: whole range incl. edges
     specs = [NAIVE, "UTC", 0, 3600, -3600, 19800, -12600, 86340, -86340, 20700]
     walls = _aligned_walls(rnd, 700 if thorough else 160)
@@ -665,6 +729,79 @@ def oracle(c, backend, r):
     return None
 
 
+# ----------------------------------------------------------------------------- what the listed defects predict (stdlib mirror of the faithful model)
+# A failing case is filed under a listed finding only when the OBSERVED groups are exactly what the documented mechanism of that finding
+# produces for this input (region AND result).  The mechanism is Model/StartEnd.v + Model/TzConvert.v convert_naive, restated here over
+# zoneinfo so that the classification does not depend on the Coq model being buildable (a changed source breaks the translation):
+#   create(wall, fold): a skipped wall time is moved by the length of the gap, forwards for fold 1 and backwards for fold 0, result fold 0;
+#                       any other wall time is kept with the given fold;
+#   set()/at()/start_of('day')... pass the INSTANCE's fold, add(days=+-1) passes the default fold 1;
+#   week: previous()/next() = start_of('day'), one step, then `while day_of_week != wd: step`, and finally start_of/end_of('day').
+class _MRaise(Exception):
+    def __init__(self, code):
+        self.code = code
+
+
+def _m_create(tz, W, f):
+    ob, oa = T.off_s(T.native(W, 0, tz)), T.off_s(T.native(W, 1, tz))
+    if oa > ob:
+        W2 = W + MEG * (oa - ob) if f else W - MEG * (oa - ob)
+        if not (0 <= W2 <= MAX_WALL):
+            raise _MRaise(3)
+        return W2, 0
+    return W, f
+
+
+def _m_set(tz, Wb, f):
+    if not (0 <= Wb <= MAX_WALL):
+        raise _MRaise(1)
+    return _m_create(tz, Wb, f)
+
+
+def _m_step(tz, W, k):
+    W2 = W + k * US_DAY
+    if not (0 <= W2 <= MAX_WALL):
+        raise _MRaise(3)
+    return _m_create(tz, W2, 1)
+
+
+def _m_walk(tz, W, f, k, wd):
+    W, f = _m_set(tz, W - W % US_DAY, f)
+    W, f = _m_step(tz, W, k)
+    n = 0
+    while (W // US_DAY) % 7 != wd:
+        n += 1
+        if n >= 24:
+            raise _MRaise(13)
+        W, f = _m_step(tz, W, k)
+    return W, f
+
+
+def _m_op(side, tz, u, ws, W, f):
+    if u == 4:
+        wd = ws if side == "start" else (ws + 6) % 7
+        if (W // US_DAY) % 7 != wd:
+            W, f = _m_walk(tz, W, f, -1 if side == "start" else 1, wd)
+        return _m_set(tz, (W - W % US_DAY) if side == "start" else (W - W % US_DAY + US_DAY - 1), f)
+    lo, hi = bounds(u, ws, W)
+    return _m_set(tz, lo if side == "start" else hi, f)
+
+
+def _m_group(side, tz, u, ws, W, f, times=1):
+    """the group [0, wall, fold, utcoffset] / [1, code, 0, 0] that the documented mechanism yields for side_of(unit) applied `times` times"""
+    try:
+        for _ in range(times):
+            W, f = _m_op(side, tz, u, ws, W, f)
+    except _MRaise as e:
+        return [1, e.code, 0, 0]
+    return [0, W, f, T.off_s(T.native(W, f, tz))]
+
+
+def documented(side, tz, u, ws, W, f, fnat):
+    """(result, applied twice, result for the converted value) as the documented mechanism predicts them"""
+    return (_m_group(side, tz, u, ws, W, f), _m_group(side, tz, u, ws, W, f, 2), _m_group(side, tz, u, ws, W, fnat))
+
+
 # ----------------------------------------------------------------------------- known findings (tight predicates on the input)
 def _day_kinds(tz, k0, k1, last_second_of=None):
     """kinds of the local midnights of day indexes k0..k1 (and of the last second of day `last_second_of`)"""
@@ -724,6 +861,12 @@ def known(c, backend, r):
     ids = []
     for side, i in (("start", 0), ("end", 1)):
         if _check_side(side, tz, spec, u, ws, W, f, Ux, g[i], g[i + 2], g[i + 4], lo, hi):
+            try:
+                want = documented(side, tz, u, ws, W, f, fnat)
+            except Exception:  # noqa
+                return None
+            if (g[i], g[i + 2], g[i + 4]) != want:
+                return None          # inside a listed region perhaps, but not the result the listed mechanism produces: a violation
             k = _classify_side(side, tz, u, ws, W, f, fnat, g[i], lo, hi)
             if k is None:
                 return None          # a failing side outside every listed region: a violation
